@@ -76,4 +76,110 @@ theorem group_delete (s : Seg) (l : Nat) (G : List (DocRec × Nat)) (hG : G <:+:
   rw [Seg.liveIdx_delete]
   exact hG.filter _
 
+/-! ### a group through a history of adding / merging sessions -/
+
+theorem infix_map_inv {α β} (f : α → β) (g : List β) (l : List α) (h : g <:+: l.map f) :
+    ∃ g', g' <:+: l ∧ g'.map f = g := by
+  obtain ⟨p, q, hpq⟩ := h
+  obtain ⟨l12, l3, rfl, h12, _⟩ := List.map_eq_append_iff.mp hpq.symm
+  obtain ⟨l1, l2, rfl, _, h2⟩ := List.map_eq_append_iff.mp h12
+  exact ⟨l2, ⟨l1, l3, rfl⟩, h2⟩
+
+theorem Writer.commitPlan_schema (w : Writer) (plan : Plan) (t' : Toc) (h : w.commitPlan plan = .ok t') :
+    t'.schema = w.schema := by
+  unfold Writer.commitPlan at h
+  cases h1 : w.addReaders (plan w.segs).1 with
+  | error e => simp [h1, Except.map] at h
+  | ok w1 =>
+    simp only [h1, Except.map, Except.ok.injEq] at h
+    obtain ⟨b1, _⟩ := Writer.addReaders_fields w _ w1 h1
+    subst h
+    exact b1
+
+theorem Writer.run_adds_frame (w : Writer) (docs : List DocRec) :
+    (w.run (docs.map .add)).segs = w.segs ∧ (w.run (docs.map .add)).schema = w.schema := by
+  induction docs generalizing w with
+  | nil => exact ⟨rfl, rfl⟩
+  | cons d r ih =>
+    simp only [List.map_cons, Writer.run]
+    obtain ⟨h1, h2⟩ := ih (w.step (.add d)).1
+    have hs : (w.step (.add d)).1.segs = w.segs ∧ (w.step (.add d)).1.schema = w.schema := by
+      by_cases hf : d.fits w.schema = true
+      · simp [Writer.step, Writer.addDocument, hf]
+      · have hf' : d.fits w.schema = false := by simpa using hf
+        simp [Writer.step, Writer.addDocument, hf']
+    exact ⟨h1.trans hs.1, h2.trans hs.2⟩
+
+theorem Writer.run_adds_ndocs (w : Writer) (docs : List DocRec) (h : ∀ d ∈ docs, d.fits w.schema = true) :
+    (w.run (docs.map .add)).ndocs = w.ndocs ++ docs ∧
+    ((w.run (docs.map .add)).added = false → w.added = false ∧ docs = []) := by
+  induction docs generalizing w with
+  | nil => exact ⟨by simp [Writer.run], fun h => ⟨h, rfl⟩⟩
+  | cons d r ih =>
+    have hd := h d (by simp)
+    have e : (w.step (.add d)).1 = { w with ndocs := w.ndocs ++ [d], pool := w.pool ++ docPostings d w.ndocs.length, added := true } := by
+      simp [Writer.step, Writer.addDocument, hd]
+    simp only [List.map_cons, Writer.run]
+    rw [e]
+    obtain ⟨h1, h2⟩ := ih { w with ndocs := w.ndocs ++ [d], pool := w.pool ++ docPostings d w.ndocs.length, added := true }
+      (fun x hx => h x (by simp [hx]))
+    refine ⟨by rw [h1]; simp, fun hf => ?_⟩
+    have := (h2 hf).1
+    simp at this
+
+/-- `g` (documents as visible under `sc`) is an adjacent run, in order, of the live documents of
+    one segment -/
+def AdjIn (sc : Schema) (g : List DocRec) (segs : List Seg) : Prop :=
+  ∃ s ∈ segs, g <:+: s.liveDocs.map (restrict sc)
+
+/-- an adjacent run survives a session that only adds documents, under any re-arranging policy -/
+theorem adj_session (t : Toc) (docs : List DocRec) (plan : Plan) (hp : PlanOK plan) (t' : Toc)
+    (h : t.session (docs.map .add) (.commit plan) = .ok t') (g : List DocRec) (ha : AdjIn t.schema g t.segs) :
+    t'.schema = t.schema ∧ AdjIn t.schema g t'.segs := by
+  obtain ⟨hsegs, hsch⟩ := Writer.run_adds_frame t.writer docs
+  have hsc : t'.schema = t.schema := (Writer.commitPlan_schema _ plan t' h).trans hsch
+  refine ⟨hsc, ?_⟩
+  obtain ⟨s, hs, hg⟩ := ha
+  obtain ⟨g', hg', rfl⟩ := infix_map_inv _ g _ hg
+  have hmem : s ∈ (plan (t.writer.run (docs.map .add)).segs).1 ∨ s ∈ (plan (t.writer.run (docs.map .add)).segs).2 := by
+    have : s ∈ (t.writer.run (docs.map .add)).segs := by rw [hsegs]; exact hs
+    exact List.mem_append.mp ((hp _).mem_iff.mpr this)
+  obtain ⟨s', hs', h2⟩ := group_merge _ plan t' h s hmem g' hg'
+  rw [hsch] at h2
+  exact ⟨s', hs', by simpa [Toc.writer] using h2⟩
+
+theorem adj_history (later : List (List DocRec × Plan)) (t : Toc) (hp : ∀ x ∈ later, PlanOK x.2) (t' : Toc)
+    (h : t.history (later.map (fun x => (x.1.map Op.add, Ending.commit x.2))) = .ok t') (g : List DocRec)
+    (ha : AdjIn t.schema g t.segs) : t'.schema = t.schema ∧ AdjIn t.schema g t'.segs := by
+  induction later generalizing t with
+  | nil => simp only [List.map_nil, Toc.history, Except.ok.injEq] at h; subst h; exact ⟨rfl, ha⟩
+  | cons x r ih =>
+    simp only [List.map_cons, Toc.history] at h
+    cases h1 : t.session (x.1.map Op.add) (.commit x.2) with
+    | error e => simp [h1, Except.bind] at h
+    | ok t1 =>
+      simp only [h1, Except.bind] at h
+      obtain ⟨hs1, a1⟩ := adj_session t x.1 x.2 (hp x (by simp)) t1 h1 g ha
+      obtain ⟨hs2, a2⟩ := ih t1 (fun y hy => hp y (by simp [hy])) h (by rw [hs1]; exact a1)
+      exact ⟨hs2.trans hs1, by rw [hs1] at a2; exact a2⟩
+
+/-- **a group through a whole history of merges.** A writer adds the block `g` (between other
+    documents) and commits; afterwards any number of writers add documents and commit, each under
+    its own re-arranging merge policy (NO_MERGE, MERGE_SMALL, OPTIMIZE, …): in the final index the
+    members of `g` are adjacent and in order among the live documents of one segment. -/
+theorem group_history (t : Toc) (pre g post : List DocRec) (hne : g ≠ []) (plan : Plan) (t1 : Toc)
+    (h1 : t.session ((pre ++ g ++ post).map .add) (.commit plan) = .ok t1)
+    (hfit : ∀ d ∈ pre ++ g ++ post, d.fits t.schema = true)
+    (later : List (List DocRec × Plan)) (hp : ∀ x ∈ later, PlanOK x.2) (t2 : Toc)
+    (h2 : t1.history (later.map (fun x => (x.1.map Op.add, Ending.commit x.2))) = .ok t2) :
+    t2.schema = t.schema ∧ ∃ s ∈ t2.segs, g.map (restrict t.schema) <:+: s.liveDocs.map (restrict t.schema) := by
+  obtain ⟨hnd, hadd⟩ := Writer.run_adds_ndocs t.writer (pre ++ g ++ post) hfit
+  have hsch := (Writer.run_adds_frame t.writer (pre ++ g ++ post)).2
+  have hs1 : t1.schema = t.schema := (Writer.commitPlan_schema _ plan t1 h1).trans hsch
+  obtain ⟨s, hs, hg⟩ := group_commit _ plan t1 h1
+    (fun hf => by have := (hadd hf).2; rw [hnd, this]; rfl) pre g post (by rw [hnd]; rfl) hne
+  have ha : AdjIn t1.schema (g.map (restrict t.schema)) t1.segs := ⟨s, hs, by rw [hs1]; exact hg.map _⟩
+  obtain ⟨hs2, s2, hs2m, hg2⟩ := adj_history later t1 hp t2 h2 _ ha
+  exact ⟨hs2.trans hs1, s2, hs2m, by rw [hs1] at hg2; exact hg2⟩
+
 end WM.Index
